@@ -82,6 +82,63 @@ fn running(ctx: &mut Ctx, data: &[u8]) {
     if produced != data { ctx.violation(id, "running", "streaming round trip differs".into(), format!("CKS in={}", hex(data))); }
 }
 
+/// The C stream's `adler` field after every `mz_inflate` call, successful or not: it must be the
+/// Adler-32 of the output produced so far.  The plaintext is known, so "produced so far" is the
+/// bytes delivered plus whatever the decoder has decoded into its window and not yet handed over
+/// (at most one window); when the call left output room unused nothing is pending and the field
+/// must be the checksum of exactly the delivered bytes.
+fn c_stream_field(ctx: &mut Ctx, data: &[u8], level: i32, first_finish: bool) { let seed = ctx.rng.next(); c_stream_field_seeded(ctx, data, level, first_finish, seed) }
+fn c_stream_field_seeded(ctx: &mut Ctx, data: &[u8], level: i32, first_finish: bool, seed: u64) {
+    use miniz_oxide_c_api::{mz_inflate, mz_inflateEnd, mz_inflateInit, mz_stream};
+    let id = ctx.id();
+    ctx.eval(fnv(data) ^ seed ^ 0xC5);
+    ctx.count(if first_finish { "c_field_first_finish" } else { "c_field_schedule" });
+    let z = miniz_oxide::deflate::compress_to_vec_zlib(data, level as u8);
+    let replay = format!("CFIELD level={} ff={} seed={} in={}", level, first_finish as u8, seed, hex(data));
+    let mut rng = crate::rng::Rng::new(seed);
+    unsafe {
+        let mut s = mz_stream::default();
+        if mz_inflateInit(&mut s) != 0 { ctx.violation(id, "c_field", "mz_inflateInit failed".into(), replay); return; }
+        let mut ipos = 0usize; let mut delivered = 0usize;
+        let mut finishing = first_finish;
+        for call in 0..200000 {
+            let left = z.len() - ipos;
+            let ain = if finishing { left } else { match rng.below(3) { 0 => rng.range(0, 3).min(left), 1 => rng.range(0, 2000).min(left), _ => left } };
+            let aout = if finishing && rng.chance(1, 2) { *rng.pick(&[1usize, 100, 32767, 32768, 32769, 40000]) } else { *rng.pick(&[1usize, 7, 500, 5000, 32768, 70000]) };
+            let flush = if finishing { 4 } else { *rng.pick(&[0, 0, 2]) };
+            let mut out = vec![0u8; aout];
+            s.next_in = z.as_ptr().add(ipos); s.avail_in = ain as u32;
+            s.next_out = out.as_mut_ptr(); s.avail_out = aout as u32;
+            let rc = mz_inflate(&mut s, flush);
+            ctx.count("c_field_calls");
+            let used_in = ain - s.avail_in as usize; let used_out = aout - s.avail_out as usize;
+            if out[..used_out] != data[delivered..(delivered + used_out).min(data.len())] { ctx.violation(id, "c_field", format!("call #{}: delivered bytes differ from the plaintext", call), replay.clone()); break; }
+            ipos += used_in; delivered += used_out;
+            if rc < 0 { ctx.count("c_field_error_returns"); if used_out > 0 { ctx.count("c_field_error_returns_with_output"); } }
+            // candidates: delivered + k pending bytes, k = 0 when room was left
+            let field = s.adler as u32;
+            // Until the first header byte has been consumed the decoder exposes no checksum at all
+            // (`adler32()` is `None`) and the field keeps the value `mz_inflateInit` gave it.
+            if s.total_in == 0 { ctx.count("c_field_before_header"); if field > 1 { ctx.violation(id, "c_field", format!("call #{}: stream.adler {} before any header byte was consumed", call, field), replay.clone()); break; } continue; }
+            let max_pending = if used_out < aout { 0 } else { 32768.min(data.len() - delivered) };
+            let mut a = mz_adler32_oxide(MZ_ADLER32_INIT, &data[..delivered]);
+            if used_out < aout && (delivered <= 8192 || rc == 1) { ctx.line(&format!("CK id={} kind=adler what=c_stream_field init=1 data={} got={}", id, hex(&data[..delivered]), field)); }
+            let mut ok = a == field;
+            let mut k = 0;
+            while !ok && k < max_pending { a = mz_adler32_oxide(a, &data[delivered + k..delivered + k + 1]); k += 1; ok = a == field; }
+            if !ok {
+                ctx.violation(id, "c_field", format!("call #{} (flush {} in {} out {} rc {}): stream.adler {} is not the Adler-32 of the {} delivered bytes{}", call, flush, ain, aout, rc, field, delivered, if max_pending > 0 { format!(" nor of those plus up to {} pending", max_pending) } else { String::new() }), replay.clone());
+                break;
+            }
+            if rc == 1 { if delivered != data.len() { ctx.violation(id, "c_field", "stream end before all data".into(), replay.clone()); } break; }
+            if rc < 0 && rc != -5 { ctx.violation(id, "c_field", format!("call #{}: unexpected error {}", call, rc), replay.clone()); break; }
+            if first_finish && call == 0 && rc == -5 { break; } // first-call-finish failed for room: the stream is spent
+            if !finishing && ipos == z.len() || rng.chance(1, 6) { finishing = true; }
+        }
+        mz_inflateEnd(&mut s);
+    }
+}
+
 /// Start values chosen so that the running sums land exactly on, just below and just above the
 /// modulus 65521 after the piece: `a0 + sum(piece) = 65521 + d`, `b0 + len*a0 + weighted(piece) = 65521 + d2 (mod)`.
 fn modulus_boundary(ctx: &mut Ctx) {
@@ -115,7 +172,8 @@ fn modulus_boundary(ctx: &mut Ctx) {
 
 pub fn run(ctx: &mut Ctx) {
     if let Some(lines) = ctx.replay_lines.clone() {
-        for l in lines { if let Some(rest) = l.strip_prefix("CKS ") { let kv = crate::kv(rest); let d = crate::tx::unhex(&kv["in"]); one(ctx, &d, "replay"); running(ctx, &d); } }
+        for l in lines { if let Some(rest) = l.strip_prefix("CKS ") { let kv = crate::kv(rest); let d = crate::tx::unhex(&kv["in"]); one(ctx, &d, "replay"); running(ctx, &d); }
+            if let Some(rest) = l.strip_prefix("CFIELD ") { let kv = crate::kv(rest); let d = crate::tx::unhex(&kv["in"]); let sd: u64 = kv["seed"].parse().unwrap(); c_stream_field_seeded(ctx, &d, kv["level"].parse().unwrap(), kv["ff"] == "1", sd); } }
         return;
     }
     let lens: Vec<usize> = vec![0, 1, 2, 15, 16, 17, 31, 32, 33, 63, 64, 65, 5551, 5552, 5553, 65535, 65536, 65537];
@@ -136,5 +194,12 @@ pub fn run(ctx: &mut Ctx) {
         let kind = *ctx.rng.pick(plain::KINDS);
         let n = ctx.rng.range(1, 60000);
         let d = plain::gen(&mut ctx.rng, kind, n); running(ctx, &d);
+    }
+    for i in 0..(16 * ctx.scale) {
+        let kind = *ctx.rng.pick(plain::KINDS);
+        let n = if i % 2 == 0 { ctx.rng.range(1, 5000) } else { ctx.rng.range(33000, 120000) };
+        let d = plain::gen(&mut ctx.rng, kind, n);
+        let lv = ctx.rng.range(0, 9) as i32;
+        c_stream_field(ctx, &d, lv, i % 4 == 3);
     }
 }
